@@ -70,6 +70,8 @@ Section StyInd.
   Hypothesis H14 : forall kt, Q kt -> forall vt, Q vt -> Q (SDict kt vt).
   Hypothesis H15 : forall t, Q t -> Q (SOpt t).
   Hypothesis H16 : forall c, Q (SData c).
+  Hypothesis H17 : forall c, Q (SNamed c).
+  Hypothesis H18 : forall c, Q (STyped c).
   Fixpoint sty_ind' (t: sty) : Q t :=
     match t with
     | SAny => H1 | SNoneT => H2 | SIntT => H3 | SFloatT => H4 | SBoolT => H5 | SStrT => H6
@@ -83,6 +85,8 @@ Section StyInd.
     | SDict kt vt => H14 kt (sty_ind' kt) vt (sty_ind' vt)
     | SOpt t' => H15 t' (sty_ind' t')
     | SData c => H16 c
+    | SNamed c => H17 c
+    | STyped c => H18 c
     end.
 End StyInd.
 
@@ -140,12 +144,288 @@ Proof.
   intros a p [].
 Qed.
 
+
 (* ------------------------------------------------------------------ *)
-(* conformance: the value is built from the canonical concrete classes of the annotation *)
+(* NamedTuple / TypedDict walkers: congruence lemmas *)
+Lemma py_eq_str_l key n : py_eq key (VStr n) = true -> key = VStr n.
+Proof.
+  destruct key as [ | b | z | f | s | m b | l | l | fr l | kvs | c fs | e m | k w | c l | tg ]; cbn; try discriminate.
+  all: try (destruct f as [m e | | [] | ]; cbn; discriminate).
+  intros H. apply String.eqb_eq in H. subst. reflexivity.
+Qed.
+
+Lemma py_eq_str_str a b : py_eq (VStr a) (VStr b) = String.eqb a b.
+Proof. reflexivity. Qed.
+
+Lemma look_map {A D} (g: A -> D) (kvs: list (pv * A)) n :
+  look (map (fun p => match p with (key, x) => (key, g x) end) kvs) n = option_map g (look kvs n).
+Proof.
+  induction kvs as [|[key x] kvs IH]; [reflexivity|].
+  cbn [map look]. destruct (py_eq key (VStr n)); [reflexivity | exact IH].
+Qed.
+
+Lemma look_In {D} (es: list (pv * D)) n d : look es n = Some d -> exists key, In (key, d) es /\ key = VStr n.
+Proof.
+  induction es as [|[key x] es IH]; cbn [look]; [discriminate|].
+  destruct (py_eq key (VStr n)) eqn:Ek.
+  - intros H. inversion H; subst. exists key. split; [left; reflexivity | apply py_eq_str_l; exact Ek].
+  - intros H. destruct (IH H) as [k' [Hin Hk]]. exists k'. split; [right; exact Hin | exact Hk].
+Qed.
+
+Lemma In_td_order f fds : In f (td_order fds) -> In f fds.
+Proof.
+  unfold td_order. intros H. apply in_app_or in H. destruct H as [H|H]; apply filter_In in H; apply H.
+Qed.
+
+Lemma nt_tail_ext k1 k2 m1 m2 fds :
+  (forall f, k1 f = k2 f) -> (forall r, m1 r = m2 r) -> nt_tail k1 m1 fds = nt_tail k2 m2 fds.
+Proof.
+  intros Hk Hm. induction fds as [|f r IH]; [reflexivity|].
+  cbn [nt_tail]. rewrite Hk, IH, Hm. reflexivity.
+Qed.
+
+Lemma nt_items_ext {X} (run1 run2: sfield -> X -> res pv) k1 k2 m1 m2 fds (l: list X) :
+  (forall f x, In x l -> run1 f x = run2 f x) -> (forall f, k1 f = k2 f) -> (forall r, m1 r = m2 r) ->
+  nt_items run1 k1 m1 fds l = nt_items run2 k2 m2 fds l.
+Proof.
+  intros Hr Hk Hm. revert fds. induction l as [|x l IH]; intros fds.
+  - destruct fds as [|f r]; [reflexivity|]. cbn [nt_items]. apply nt_tail_ext; assumption.
+  - destruct fds as [|f r]; [reflexivity|]. cbn [nt_items].
+    rewrite (Hr f x (or_introl eq_refl)). rewrite IH; [reflexivity|].
+    intros f0 x0 Hx0. apply Hr. right. exact Hx0.
+Qed.
+
+(* exact-length positional predicate (conformance of a NamedTuple instance) *)
+Section NtAll.
+  Context {X: Type}.
+  Variable q : sfield -> X -> bool.
+  Fixpoint nt_all (fds: list sfield) (l: list X) {struct l} : bool :=
+    match fds, l with
+    | [], [] => true
+    | f :: r, x :: l' => q f x && nt_all r l'
+    | _, _ => false end.
+End NtAll.
+
+Lemma nt_items_ext_all {X} (q: sfield -> X -> bool) (run1 run2: sfield -> X -> res pv) k m fds (l: list X) :
+  nt_all q fds l = true -> (forall f x, In x l -> q f x = true -> run1 f x = run2 f x) ->
+  nt_items run1 k m fds l = nt_items run2 k m fds l.
+Proof.
+  revert fds. induction l as [|x l IH]; intros fds HA Hr.
+  - destruct fds; [reflexivity | discriminate HA].
+  - destruct fds as [|f r]; [reflexivity|]. cbn [nt_all] in HA. apply andb_prop in HA. destruct HA as [Hq HA].
+    cbn [nt_items]. rewrite (Hr f x (or_introl eq_refl) Hq). rewrite (IH r HA); [reflexivity|].
+    intros f0 x0 Hx0. apply Hr. right. exact Hx0.
+Qed.
+
+Lemma td_go_ext {D1 D2} (run1: sfield -> D1 -> res pv) (run2: sfield -> D2 -> res pv) k1 k2 ms es1 es2 fds :
+  (forall f, In f fds -> td_field run1 k1 ms es1 f = td_field run2 k2 ms es2 f) ->
+  td_go run1 k1 ms es1 fds = td_go run2 k2 ms es2 fds.
+Proof.
+  induction fds as [|f r IH]; intros H; [reflexivity|].
+  cbn [td_go]. rewrite (H f (or_introl eq_refl)). rewrite IH; [reflexivity|].
+  intros g Hg. apply H. right. exact Hg.
+Qed.
+
+Lemma td_nondict_ext k1 k2 fds : (forall f, k1 f = k2 f) -> td_nondict k1 fds = td_nondict k2 fds.
+Proof.
+  intros Hk. unfold td_nondict. f_equal. apply td_go_ext. intros f _. unfold td_field. rewrite Hk. reflexivity.
+Qed.
+
+(* TypedDict values: every key is a declared name; canonical key order = a subsequence of
+   the (de)serializer's order [td_order] *)
+Definition key_declared (fds: list sfield) (key: pv) : bool :=
+  match key with VStr s => existsb (fun f => String.eqb f.(sf_name) s) fds | _ => false end.
+
+Fixpoint td_sorted (order: list sfield) (kvs: list (pv * pv)) : bool :=
+  match order with
+  | [] => match kvs with [] => true | _ => false end
+  | f :: order' =>
+      match kvs with
+      | [] => true
+      | (key, _) :: r => if py_eq key (VStr f.(sf_name)) then td_sorted order' r else td_sorted order' kvs
+      end
+  end.
+
+(* ------------------------------------------------------------------ *)
+(* class-table well-formedness pieces shared by C01 / C03 *)
+Fixpoint names_nodup (l: list sfield) : bool :=
+  match l with
+  | [] => true
+  | f :: r => negb (existsb (fun g => String.eqb f.(sf_name) g.(sf_name)) r) && names_nodup r end.
+
+Lemma sfind_In E kd c k : sfind E kd c = Some k -> In k E /\ sc_kind k = kd.
+Proof.
+  induction E as [|x E IH]; cbn [sfind]; [discriminate|].
+  destruct (ckind_eqb (sc_kind x) kd && String.eqb (sc_name x) c) eqn:Eq.
+  - intros H. inversion H; subst. split; [left; reflexivity|].
+    apply andb_prop in Eq. destruct Eq as [Eq _]. destruct (sc_kind k), kd; try discriminate Eq; reflexivity.
+  - intros H. destruct (IH H) as [Hin Hk]. split; [right; exact Hin | exact Hk].
+Qed.
+
+Lemma names_nodup_notin f r g :
+  existsb (fun g0 => String.eqb (sf_name f) (sf_name g0)) r = false -> In g r -> String.eqb (sf_name f) (sf_name g) = false.
+Proof.
+  intros Hn Hg. destruct (String.eqb (sf_name f) (sf_name g)) eqn:Eq; [|reflexivity].
+  assert (existsb (fun g0 => String.eqb (sf_name f) (sf_name g0)) r = true) as Hx.
+  { apply existsb_exists. exists g. split; assumption. }
+  rewrite Hx in Hn. discriminate.
+Qed.
+
+Lemma names_nodup_inj l : names_nodup l = true -> forall f g, In f l -> In g l ->
+  String.eqb (sf_name f) (sf_name g) = true -> f = g.
+Proof.
+  induction l as [|f0 r IH]; intros Hn f g Hf Hg He; [destruct Hf|].
+  cbn [names_nodup] in Hn. apply andb_prop in Hn. destruct Hn as [Hh Hr]. apply negb_true_iff in Hh.
+  destruct Hf as [Hf|Hf]; destruct Hg as [Hg|Hg].
+  - subst. reflexivity.
+  - subst f0. rewrite (names_nodup_notin f r g Hh Hg) in He. discriminate.
+  - subst f0. rewrite String.eqb_sym in He. rewrite (names_nodup_notin g r f Hh Hf) in He. discriminate.
+  - apply (IH Hr f g Hf Hg He).
+Qed.
+
+Lemma names_nodup_filter q l : names_nodup l = true -> names_nodup (filter q l) = true.
+Proof.
+  induction l as [|f r IH]; intros Hn; [reflexivity|].
+  cbn [names_nodup] in Hn. apply andb_prop in Hn. destruct Hn as [Hh Hr]. apply negb_true_iff in Hh.
+  cbn [filter]. destruct (q f); [|apply IH; exact Hr].
+  cbn [names_nodup]. rewrite (IH Hr), andb_true_r. apply negb_true_iff.
+  destruct (existsb (fun g => String.eqb (sf_name f) (sf_name g)) (filter q r)) eqn:Ex; [|reflexivity].
+  apply existsb_exists in Ex. destruct Ex as [g [Hg He]]. apply filter_In in Hg. destruct Hg as [Hg _].
+  rewrite (names_nodup_notin f r g Hh Hg) in He. discriminate.
+Qed.
+
+Lemma names_nodup_app a b : names_nodup a = true -> names_nodup b = true ->
+  (forall f g, In f a -> In g b -> String.eqb (sf_name f) (sf_name g) = false) -> names_nodup (a ++ b) = true.
+Proof.
+  induction a as [|f r IH]; intros Ha Hb Hd; [exact Hb|].
+  cbn [names_nodup] in Ha. apply andb_prop in Ha. destruct Ha as [Hh Hr]. apply negb_true_iff in Hh.
+  cbn [app names_nodup]. rewrite IH; [| exact Hr | exact Hb | intros f1 g1 Hf1 Hg1; apply Hd; [right; exact Hf1 | exact Hg1]].
+  rewrite andb_true_r. apply negb_true_iff. rewrite existsb_app, Hh. cbn [orb].
+  destruct (existsb (fun g => String.eqb (sf_name f) (sf_name g)) b) eqn:Ex; [|reflexivity].
+  apply existsb_exists in Ex. destruct Ex as [g [Hg He]]. rewrite (Hd f g (or_introl eq_refl) Hg) in He. discriminate.
+Qed.
+
+Lemma names_nodup_td_order fds : names_nodup fds = true -> names_nodup (td_order fds) = true.
+Proof.
+  intros Hn. unfold td_order. apply names_nodup_app; try (apply names_nodup_filter; exact Hn).
+  intros f g Hf Hg. apply filter_In in Hf. apply filter_In in Hg. destruct Hf as [Hf Of]. destruct Hg as [Hg Og].
+  destruct (String.eqb (sf_name f) (sf_name g)) eqn:Eq; [|reflexivity].
+  rewrite (names_nodup_inj fds Hn f g Hf Hg Eq) in Of. rewrite Og in Of. discriminate.
+Qed.
+
+Lemma In_td_order_iff f fds : In f fds -> In f (td_order fds).
+Proof.
+  intros H. unfold td_order. apply in_or_app. destruct (sf_opt f) eqn:Eo.
+  - right. apply filter_In. split; assumption.
+  - left. apply filter_In. split; [exact H | rewrite Eo; reflexivity].
+Qed.
+
+(* ---- what a successful TypedDict walk returned ---- *)
+Section TdGo.
+  Context {D: Type}.
+  Variable run : sfield -> D -> res pv.
+  Variable konst : sfield -> option pv.
+  Variable ms : exn.
+  Variable es : list (pv * D).
+
+  Lemma td_go_cons f rest R : td_go run konst ms es (f :: rest) = Ok R ->
+    (td_field run konst ms es f = None /\ td_go run konst ms es rest = Ok R) \/
+    (exists y tl, td_field run konst ms es f = Some (Ok y) /\ td_go run konst ms es rest = Ok tl /\ R = (VStr (sf_name f), y) :: tl).
+  Proof.
+    cbn [td_go]. destruct (td_field run konst ms es f) as [[y|e]|].
+    - cbn [bind]. destruct (td_go run konst ms es rest) as [tl|e]; cbn [bind]; [|discriminate].
+      intros H. inversion H. right. exists y, tl. repeat split.
+    - discriminate.
+    - intros H. left. split; [reflexivity | exact H].
+  Qed.
+
+  Lemma td_go_keys order R : td_go run konst ms es order = Ok R ->
+    forall p, In p R -> exists f, In f order /\ fst p = VStr (sf_name f).
+  Proof.
+    revert R. induction order as [|f rest IH]; intros R H p Hp.
+    - inversion H; subst. destruct Hp.
+    - destruct (td_go_cons f rest R H) as [[_ Hr] | [y [tl [_ [Hr HR]]]]].
+      + destruct (IH R Hr p Hp) as [g [Hg Hk]]. exists g. split; [right; exact Hg | exact Hk].
+      + subst R. destruct Hp as [Hp|Hp].
+        * subst p. exists f. split; [left; reflexivity | reflexivity].
+        * destruct (IH tl Hr p Hp) as [g [Hg Hk]]. exists g. split; [right; exact Hg | exact Hk].
+  Qed.
+
+  Lemma td_go_vals order R : td_go run konst ms es order = Ok R ->
+    forall p, In p R -> exists f, In f order /\ fst p = VStr (sf_name f) /\ td_field run konst ms es f = Some (Ok (snd p)).
+  Proof.
+    revert R. induction order as [|f rest IH]; intros R H p Hp.
+    - inversion H; subst. destruct Hp.
+    - destruct (td_go_cons f rest R H) as [[_ Hr] | [y [tl [Hs [Hr HR]]]]].
+      + destruct (IH R Hr p Hp) as [g [Hg Hk]]. exists g. split; [right; exact Hg | exact Hk].
+      + subst R. destruct Hp as [Hp|Hp].
+        * subst p. exists f. split; [left; reflexivity | split; [reflexivity | exact Hs]].
+        * destruct (IH tl Hr p Hp) as [g [Hg Hk]]. exists g. split; [right; exact Hg | exact Hk].
+  Qed.
+
+  Lemma td_go_look_none order R n : td_go run konst ms es order = Ok R ->
+    (forall g, In g order -> String.eqb (sf_name g) n = false) -> @look pv R n = None.
+  Proof.
+    intros H Hn. pose proof (td_go_keys order R H) as Hk. clear H.
+    induction R as [|[key y] R IH]; [reflexivity|].
+    cbn [look]. destruct (Hk (key, y) (or_introl eq_refl)) as [g [Hg Hkey]]. cbn [fst] in Hkey. subst key.
+    rewrite py_eq_str_str, (Hn g Hg). apply IH. intros p Hp. apply Hk. right. exact Hp.
+  Qed.
+
+  Lemma td_go_look order R : names_nodup order = true -> td_go run konst ms es order = Ok R ->
+    forall f, In f order ->
+      (td_field run konst ms es f = None /\ @look pv R (sf_name f) = None) \/
+      (exists y, td_field run konst ms es f = Some (Ok y) /\ @look pv R (sf_name f) = Some y).
+  Proof.
+    revert R. induction order as [|f0 rest IH]; intros R Hn H f Hf; [destruct Hf|].
+    cbn [names_nodup] in Hn. apply andb_prop in Hn. destruct Hn as [Hh Hr]. apply negb_true_iff in Hh.
+    destruct (td_go_cons f0 rest R H) as [[Hnone Hrest] | [y [tl [Hsome [Hrest HR]]]]].
+    - destruct Hf as [Hf|Hf].
+      + subst f0. left. split; [exact Hnone|].
+        apply (td_go_look_none rest R (sf_name f) Hrest). intros g Hg.
+        rewrite String.eqb_sym. apply (names_nodup_notin f rest g Hh Hg).
+      + apply (IH R Hr Hrest f Hf).
+    - subst R. destruct Hf as [Hf|Hf].
+      + subst f0. right. exists y. split; [exact Hsome|]. cbn [look]. rewrite py_eq_str_str, String.eqb_refl. reflexivity.
+      + cbn [look]. rewrite py_eq_str_str, (names_nodup_notin f0 rest f Hh Hf). apply (IH tl Hr Hrest f Hf).
+  Qed.
+
+  Lemma td_go_nodup order R : names_nodup order = true -> td_go run konst ms es order = Ok R -> nodup_keys R = true.
+  Proof.
+    revert R. induction order as [|f0 rest IH]; intros R Hn H.
+    - inversion H. reflexivity.
+    - cbn [names_nodup] in Hn. apply andb_prop in Hn. destruct Hn as [Hh Hr]. apply negb_true_iff in Hh.
+      destruct (td_go_cons f0 rest R H) as [[_ Hrest] | [y [tl [_ [Hrest HR]]]]]; [apply (IH R Hr Hrest)|].
+      subst R. cbn [nodup_keys]. rewrite (IH tl Hr Hrest), andb_true_r. apply negb_true_iff.
+      destruct (existsb (fun p => py_eq (VStr (sf_name f0)) (fst p)) tl) eqn:Ex; [|reflexivity].
+      apply existsb_exists in Ex. destruct Ex as [p [Hp He]].
+      destruct (td_go_keys rest tl Hrest p Hp) as [g [Hg Hk]]. rewrite Hk, py_eq_str_str in He.
+      rewrite (names_nodup_notin f0 rest g Hh Hg) in He. discriminate.
+  Qed.
+
+  Lemma td_go_sorted order R : names_nodup order = true -> td_go run konst ms es order = Ok R -> td_sorted order R = true.
+  Proof.
+    revert R. induction order as [|f0 rest IH]; intros R Hn H.
+    - inversion H. reflexivity.
+    - cbn [names_nodup] in Hn. apply andb_prop in Hn. destruct Hn as [Hh Hr]. apply negb_true_iff in Hh.
+      destruct (td_go_cons f0 rest R H) as [[_ Hrest] | [y [tl [_ [Hrest HR]]]]].
+      + cbn [td_sorted]. destruct R as [|[key y] R']; [reflexivity|].
+        destruct (td_go_keys rest _ Hrest (key, y) (or_introl eq_refl)) as [g [Hg Hk]]. cbn [fst] in Hk. subst key.
+        rewrite py_eq_str_str. rewrite String.eqb_sym, (names_nodup_notin f0 rest g Hh Hg). apply (IH _ Hr Hrest).
+      + subst R. cbn [td_sorted]. rewrite py_eq_str_str, String.eqb_refl. apply (IH tl Hr Hrest).
+  Qed.
+End TdGo.
+
+(* ------------------------------------------------------------------ *)
+(* conformance: the value is built from the canonical concrete classes of the annotation.
+   [o = true] additionally asks that the keys of every TypedDict value come in the order the
+   decoder produces (required keys, then optional keys, each in declaration order): Python's
+   == on dicts ignores the order, equality of [pv] terms does not (used by C01 only). *)
 Section Conf.
+  Variable o : bool.
   Variable E : senv.
 
-  Fixpoint conf (v: pv) {struct v} : sty -> bool :=
+  Fixpoint conf_g (v: pv) {struct v} : sty -> bool :=
     fix on_t (t: sty) {struct t} : bool :=
       match t with
       | SAny => true
@@ -157,28 +437,28 @@ Section Conf.
       | SBytes m => match v with VBytes m' _ => Bool.eqb m m' | _ => false end
       | SLeaf k => match v with VLeaf k' _ => String.eqb k k' | _ => false end
       | SEnum e => match v with VEnum e' _ => String.eqb e e' | _ => false end
-      | SList t' => match v with VList l => forallb (fun x => conf x t') l | _ => false end
-      | SSet fr t' => match v with VSet fr' l => Bool.eqb fr fr' && forallb (fun x => conf x t') l | _ => false end
-      | STupleVar t' => match v with VTuple l => forallb (fun x => conf x t') l | _ => false end
+      | SList t' => match v with VList l => forallb (fun x => conf_g x t') l | _ => false end
+      | SSet fr t' => match v with VSet fr' l => Bool.eqb fr fr' && forallb (fun x => conf_g x t') l | _ => false end
+      | STupleVar t' => match v with VTuple l => forallb (fun x => conf_g x t') l | _ => false end
       | STupleFix ts =>
           match v with
           | VTuple l =>
               (fix go (ts: list sty) (l: list pv) {struct l} : bool :=
                  match ts, l with
                  | [], [] => true
-                 | t' :: ts', x :: l' => conf x t' && go ts' l'
+                 | t' :: ts', x :: l' => conf_g x t' && go ts' l'
                  | _, _ => false end) ts l
           | _ => false end
       | SDict kt vt =>
           match v with
-          | VDict kvs => nodup_keys kvs && forallb (fun p => match p with (k, x) => conf k kt && conf x vt end) kvs
+          | VDict kvs => nodup_keys kvs && forallb (fun p => match p with (k, x) => conf_g k kt && conf_g x vt end) kvs
           | _ => false end
       | SOpt t' => is_none v || on_t t'
       | SData c =>
           match v with
           | VObj c' fs =>
               String.eqb c c' &&
-              match sfind E c with
+              match sfind E KData c with
               | None => false
               | Some k =>
                   (fix go (fds: list sfield) (fs: list (string * pv)) {struct fs} : bool :=
@@ -186,15 +466,41 @@ Section Conf.
                      | [], [] => true
                      | f :: fds', (n, x) :: fs' =>
                          String.eqb n f.(sf_name) &&
-                         ((sfield_nullable f && is_none x) || conf x f.(sf_ty)) && go fds' fs'
+                         ((sfield_nullable f && is_none x) || conf_g x f.(sf_ty)) && go fds' fs'
                      | _, _ => false end) k.(sc_fields) fs
+              end
+          | _ => false end
+      | SNamed c =>
+          match v with
+          | VNT c' l =>
+              String.eqb c c' &&
+              match sfind E KNamed c with
+              | None => false
+              | Some k => nt_all (fun f x => conf_g x f.(sf_ty)) k.(sc_fields) l
+              end
+          | _ => false end
+      | STyped c =>
+          match v with
+          | VDict kvs =>
+              match sfind E KTyped c with
+              | None => false
+              | Some k =>
+                  nodup_keys kvs && forallb (fun p => key_declared k.(sc_fields) (fst p)) kvs &&
+                  (let cs : list (pv * (sty -> bool)) := map (fun p => match p with (key, x) => (key, conf_g x) end) kvs in
+                   forallb (fun f => match look cs f.(sf_name) with
+                                     | Some cx => cx f.(sf_ty)
+                                     | None => f.(sf_opt) end) k.(sc_fields)) &&
+                  (if o then td_sorted (td_order k.(sc_fields)) kvs else true)
               end
           | _ => false end
       end.
 End Conf.
+Notation conf := (conf_g false).
+Notation conf_ord := (conf_g true).
 
 (* ------------------------------------------------------------------ *)
 Section C02.
+  Variable o : bool.
   Variable E : senv.
   Variable P : prims.
 
@@ -232,7 +538,7 @@ Section C02.
 
   (* the statement proved by nested induction (value, then type) *)
   Definition pk_ok (v: pv) : Prop :=
-    forall t cbn, conf E v t = true -> none_guard cbn t v -> pk E P v (cp cbn t) = ref_enc E P v t.
+    forall t cbn, conf_g o E v t = true -> none_guard cbn t v -> pk E P v (cp cbn t) = ref_enc E P v t.
 
   Lemma pk_unfold v e : pk E P v e =
     match e with
@@ -268,7 +574,7 @@ Section C02.
     | EData c =>
         match v with
         | VObj c' fs =>
-            match sfind E c with
+            match sfind E KData c with
             | None => Exn XAttributeError
             | Some k =>
                 r <- (fix go (fds: list sfield) (fs: list (string * pv)) {struct fs} : res (list (pv * pv)) :=
@@ -285,6 +591,32 @@ Section C02.
                 Ok (VDict r)
             end
         | _ => Exn XAttributeError
+        end
+    | ENamed c =>
+        match sfind E KNamed c with
+        | None => Exn XAttributeError
+        | Some k =>
+            match v with
+            | VNT _ l | VTuple l | VList l =>
+                r <- nt_items (fun f x => pk E P x (cp true f.(sf_ty))) (fun _ => None)
+                              (fun _ => Exn XIndexError) k.(sc_fields) l ;;
+                Ok (VList r)
+            | _ => Exn XTypeError
+            end
+        end
+    | ETyped c =>
+        match sfind E KTyped c with
+        | None => Exn XAttributeError
+        | Some k =>
+            match v with
+            | VDict kvs =>
+                let entries : list (pv * (penc -> res pv)) :=
+                    map (fun p => match p with (key, x) => (key, pk E P x) end) kvs in
+                r <- td_go (fun f dx => dx (cp true f.(sf_ty))) (fun _ => None) XKeyError
+                           entries (td_order k.(sc_fields)) ;;
+                Ok (VDict r)
+            | _ => Exn XTypeError
+            end
         end
     end.
   Proof. destruct v, e; reflexivity. Qed.
@@ -321,7 +653,7 @@ Section C02.
     | SData c =>
         match v with
         | VObj c' fs =>
-            match sfind E c with
+            match sfind E KData c with
             | None => Exn XAttributeError
             | Some k =>
                 r <- (fix go (fds: list sfield) (fs: list (string * pv)) {struct fs} : res (list (pv * pv)) :=
@@ -339,10 +671,36 @@ Section C02.
             end
         | _ => Exn XAttributeError
         end
+    | SNamed c =>
+        match sfind E KNamed c with
+        | None => Exn XAttributeError
+        | Some k =>
+            match v with
+            | VNT _ l | VTuple l | VList l =>
+                r <- nt_items (fun f x => ref_enc E P x f.(sf_ty)) (fun _ => None)
+                              (fun _ => Exn XIndexError) k.(sc_fields) l ;;
+                Ok (VList r)
+            | _ => Exn XTypeError
+            end
+        end
+    | STyped c =>
+        match sfind E KTyped c with
+        | None => Exn XAttributeError
+        | Some k =>
+            match v with
+            | VDict kvs =>
+                let entries : list (pv * (sty -> res pv)) :=
+                    map (fun p => match p with (key, x) => (key, ref_enc E P x) end) kvs in
+                r <- td_go (fun f dx => dx f.(sf_ty)) (fun _ => None) XKeyError
+                           entries (td_order k.(sc_fields)) ;;
+                Ok (VDict r)
+            | _ => Exn XTypeError
+            end
+        end
     end.
   Proof. destruct v, t; reflexivity. Qed.
 
-  Lemma conf_unfold v t : conf E v t =
+  Lemma conf_unfold v t : conf_g o E v t =
     match t with
     | SAny => true
     | SNoneT => is_none v
@@ -353,28 +711,28 @@ Section C02.
     | SBytes m => match v with VBytes m' _ => Bool.eqb m m' | _ => false end
     | SLeaf k => match v with VLeaf k' _ => String.eqb k k' | _ => false end
     | SEnum e => match v with VEnum e' _ => String.eqb e e' | _ => false end
-    | SList t' => match v with VList l => forallb (fun x => conf E x t') l | _ => false end
-    | SSet fr t' => match v with VSet fr' l => Bool.eqb fr fr' && forallb (fun x => conf E x t') l | _ => false end
-    | STupleVar t' => match v with VTuple l => forallb (fun x => conf E x t') l | _ => false end
+    | SList t' => match v with VList l => forallb (fun x => conf_g o E x t') l | _ => false end
+    | SSet fr t' => match v with VSet fr' l => Bool.eqb fr fr' && forallb (fun x => conf_g o E x t') l | _ => false end
+    | STupleVar t' => match v with VTuple l => forallb (fun x => conf_g o E x t') l | _ => false end
     | STupleFix ts =>
         match v with
         | VTuple l =>
             (fix go (ts: list sty) (l: list pv) {struct l} : bool :=
                match ts, l with
                | [], [] => true
-               | t' :: ts', x :: l' => conf E x t' && go ts' l'
+               | t' :: ts', x :: l' => conf_g o E x t' && go ts' l'
                | _, _ => false end) ts l
         | _ => false end
     | SDict kt vt =>
         match v with
-        | VDict kvs => nodup_keys kvs && forallb (fun p => match p with (k, x) => conf E k kt && conf E x vt end) kvs
+        | VDict kvs => nodup_keys kvs && forallb (fun p => match p with (k, x) => conf_g o E k kt && conf_g o E x vt end) kvs
         | _ => false end
-    | SOpt t' => is_none v || conf E v t'
+    | SOpt t' => is_none v || conf_g o E v t'
     | SData c =>
         match v with
         | VObj c' fs =>
             String.eqb c c' &&
-            match sfind E c with
+            match sfind E KData c with
             | None => false
             | Some k =>
                 (fix go (fds: list sfield) (fs: list (string * pv)) {struct fs} : bool :=
@@ -382,8 +740,31 @@ Section C02.
                    | [], [] => true
                    | f :: fds', (n, x) :: fs' =>
                        String.eqb n f.(sf_name) &&
-                       ((sfield_nullable f && is_none x) || conf E x f.(sf_ty)) && go fds' fs'
+                       ((sfield_nullable f && is_none x) || conf_g o E x f.(sf_ty)) && go fds' fs'
                    | _, _ => false end) k.(sc_fields) fs
+            end
+        | _ => false end
+    | SNamed c =>
+        match v with
+        | VNT c' l =>
+            String.eqb c c' &&
+            match sfind E KNamed c with
+            | None => false
+            | Some k => nt_all (fun f x => conf_g o E x f.(sf_ty)) k.(sc_fields) l
+            end
+        | _ => false end
+    | STyped c =>
+        match v with
+        | VDict kvs =>
+            match sfind E KTyped c with
+            | None => false
+            | Some k =>
+                nodup_keys kvs && forallb (fun p => key_declared k.(sc_fields) (fst p)) kvs &&
+                (let cs : list (pv * (sty -> bool)) := map (fun p => match p with (key, x) => (key, conf_g o E x) end) kvs in
+                 forallb (fun f => match look cs f.(sf_name) with
+                                   | Some cx => cx f.(sf_ty)
+                                   | None => f.(sf_opt) end) k.(sc_fields)) &&
+                (if o then td_sorted (td_order k.(sc_fields)) kvs else true)
             end
         | _ => false end
     end.
@@ -391,7 +772,7 @@ Section C02.
 
   (* element-wise list lemma used by list / set / variadic tuple *)
   Lemma pk_list_elems (l: list pv) t' :
-    Forall pk_ok l -> forallb (fun x => conf E x t') l = true ->
+    Forall pk_ok l -> forallb (fun x => conf_g o E x t') l = true ->
     mapM (fun x => pk E P x (cp true t')) l = mapM (fun x => ref_enc E P x t') l.
   Proof.
     intros HF HC. apply mapM_ext_in. intros x Hx.
@@ -409,7 +790,7 @@ Section C02.
     induction v as [ | b | z | f | s | m b | l IHl | l IHl | fr l IHl | kvs IHk | c fs IHf | e m | k w | c l IHl | tg ]
       using pv_rect'; unfold pk_ok.
     (* every case: inner induction on the type is only needed for SOpt, so destruct and recurse there *)
-    all: intros t; induction t as [ | | | | | | m' | k' | e' | t' IHt | fr' t' IHt | t' IHt | ts | kt IHkt vt IHvt | t' IHt | c' ];
+    all: intros t; induction t as [ | | | | | | m' | k' | e' | t' IHt | fr' t' IHt | t' IHt | ts | kt IHkt vt IHvt | t' IHt | c' | c' | c' ];
       intros cbn HC HG; rewrite conf_unfold in HC; rewrite ref_enc_unfold;
       try discriminate HC;
       try (cbn [cp]; rewrite pk_unfold; reflexivity).
@@ -458,9 +839,20 @@ Section C02.
         * cbn [bind]. rewrite dict_of_pairs_nodup by exact Hnd. reflexivity.
         * intros p _. split; apply is_id_cp_true; assumption.
       + rewrite (Hext _ _ eq_refl eq_refl). reflexivity.
+    - (* VDict, STyped *)
+      cbn [cp]. rewrite pk_unfold.
+      destruct (sfind E _ c') as [k|]; [|discriminate HC].
+      apply andb_prop in HC. destruct HC as [HC _]. apply andb_prop in HC. destruct HC as [_ HCf].
+      cbv zeta. f_equal. apply td_go_ext. intros f Hf. apply In_td_order in Hf.
+      unfold td_field. rewrite (look_map (pk E P) kvs), (look_map (ref_enc E P) kvs).
+      rewrite forallb_forall in HCf. specialize (HCf f Hf). cbv zeta in HCf. rewrite (look_map (conf_g o E) kvs) in HCf.
+      destruct (look kvs (sf_name f)) as [x|] eqn:El; cbn [option_map] in *; [|reflexivity].
+      destruct (look_In _ _ _ El) as [key [Hin _]].
+      pose proof (Forall_In _ _ IHk (key, x) Hin) as [_ Qx]. cbn [snd] in Qx.
+      rewrite (Qx (sf_ty f) true HCf) by (intros Hc; discriminate Hc). reflexivity.
     - (* VObj, SData *)
       apply andb_prop in HC. destruct HC as [_ HC].
-      cbn [cp]. rewrite pk_unfold. destruct (sfind E c') as [k|]; [|reflexivity].
+      cbn [cp]. rewrite pk_unfold. destruct (sfind E _ c') as [k|]; [|reflexivity].
       f_equal. clear HG. revert HC. generalize (sc_fields k). intros fds HC. revert fds HC.
       induction fs as [|[n x] fs IHfs]; intros fds HC.
       + destruct fds; reflexivity.
@@ -474,12 +866,84 @@ Section C02.
           rewrite (Qx (sf_ty f) false Hx).
           -- rewrite (IHfs Qfs fds Hr). reflexivity.
           -- intros _ Hnl. unfold sfield_nullable in Hnull. rewrite Hnl in Hnull. cbn [orb andb] in Hnull. exact Hnull.
+    - (* VNT, SNamed *)
+      cbn [cp]. rewrite pk_unfold.
+      apply andb_prop in HC. destruct HC as [_ HC].
+      destruct (sfind E _ c') as [k|]; [|discriminate HC].
+      f_equal. apply (nt_items_ext_all (fun f x => conf_g o E x (sf_ty f))); [exact HC|].
+      intros f x Hx Hq. apply (Forall_In _ _ IHl x Hx); [exact Hq | intros Hc; discriminate Hc].
   Qed.
 
   (* C02 for the codec entry point: BasicEncoder(T).encode(v) *)
-  Corollary encode_is_ref v t : conf E v t = true -> pk E P v (cp true t) = ref_enc E P v t.
+  Corollary encode_is_ref v t : conf_g o E v t = true -> pk E P v (cp true t) = ref_enc E P v t.
   Proof. intros H. apply pk_cp_ref; [exact H | intros Hc; discriminate]. Qed.
 End C02.
+
+(* ------------------------------------------------------------------ *)
+(* the ordered conformance used by C01 is conformance plus the TypedDict key order *)
+Lemma forallb_impl_in {A} (p q: A -> bool) l :
+  (forall x, In x l -> p x = true -> q x = true) -> forallb p l = true -> forallb q l = true.
+Proof.
+  induction l as [|a l IH]; intros H Hp; [reflexivity|].
+  cbn [forallb] in *. apply andb_prop in Hp. destruct Hp as [Ha Hl].
+  rewrite (H a (or_introl eq_refl) Ha). apply IH; [|exact Hl]. intros x Hx. apply H. right. exact Hx.
+Qed.
+
+Lemma nt_all_impl_in {X} (p q: sfield -> X -> bool) fds (l: list X) :
+  (forall f x, In x l -> p f x = true -> q f x = true) -> nt_all p fds l = true -> nt_all q fds l = true.
+Proof.
+  revert fds. induction l as [|x l IH]; intros fds H Hp; destruct fds as [|f r]; try discriminate Hp; [reflexivity|].
+  cbn [nt_all] in *. apply andb_prop in Hp. destruct Hp as [Ha Hl].
+  rewrite (H f x (or_introl eq_refl) Ha). apply IH; [|exact Hl]. intros f0 x0 Hx. apply H. right. exact Hx.
+Qed.
+
+Section ConfMono.
+  Variable E : senv.
+  Definition mono_ok (v: pv) : Prop := forall t, conf_ord E v t = true -> conf E v t = true.
+
+  Theorem conf_ord_conf : forall v, mono_ok v.
+  Proof.
+    induction v as [ | b | z | f | s | m b | l IHl | l IHl | fr l IHl | kvs IHk | c fs IHf | e m | k w | c l IHl | tg ]
+      using pv_rect'; unfold mono_ok.
+    all: intros t; induction t as [ | | | | | | m' | k' | e' | t' IHt | fr' t' IHt | t' IHt | ts | kt IHkt vt IHvt | t' IHt | c' | c' | c' ];
+      intros HC; rewrite conf_unfold in HC; rewrite conf_unfold; try exact HC; try discriminate HC.
+    (* Optional *)
+    all: try solve [ cbn [is_none orb] in HC |- *; apply IHt; exact HC ].
+    (* homogeneous containers *)
+    all: try solve [ try (apply andb_prop in HC; destruct HC as [Hfr HC]; rewrite Hfr; cbn [andb]);
+                     refine (forallb_impl_in _ _ _ _ HC); intros x Hx Hc; apply (Forall_In _ _ IHl x Hx); exact Hc ].
+    - (* fixed tuple *)
+      revert ts HC. induction l as [|x l IHl']; intros ts HC; destruct ts as [|t1 ts]; try discriminate HC; [reflexivity|].
+      apply andb_prop in HC. destruct HC as [Cx Cl]. inversion IHl as [|? ? Qx Ql]; subst.
+      rewrite (Qx t1 Cx). apply (IHl' Ql ts Cl).
+    - (* dict *)
+      apply andb_prop in HC. destruct HC as [Hnd HC]. rewrite Hnd. cbn [andb].
+      refine (forallb_impl_in _ _ _ _ HC). intros [k x] Hp Hc. apply andb_prop in Hc. destruct Hc as [Ck Cx].
+      destruct (Forall_In _ _ IHk (k, x) Hp) as [Qk Qx]. cbn [fst snd] in Qk, Qx. rewrite (Qk kt Ck), (Qx vt Cx). reflexivity.
+    - (* TypedDict: drop the order, keep the rest *)
+      destruct (sfind E _ c') as [k0|]; [|discriminate HC].
+      apply andb_prop in HC. destruct HC as [HC _]. apply andb_prop in HC. destruct HC as [HC HCf]. rewrite HC. cbn [andb].
+      rewrite andb_true_r. cbv zeta in HCf |- *.
+      refine (forallb_impl_in _ _ _ _ HCf). intros f _ Hc.
+      rewrite (look_map (conf_g true E) kvs) in Hc. rewrite (look_map (conf_g false E) kvs).
+      destruct (look kvs (sf_name f)) as [x|] eqn:El; cbn [option_map] in *; [|exact Hc].
+      destruct (look_In _ _ _ El) as [key [Hin _]].
+      apply (proj2 (Forall_In _ _ IHk (key, x) Hin)). exact Hc.
+    - (* dataclass *)
+      apply andb_prop in HC. destruct HC as [Hc HC]. rewrite Hc. cbn [andb].
+      destruct (sfind E _ c') as [k0|]; [|discriminate HC].
+      revert HC. generalize (sc_fields k0) as fds. intros fds. revert fds.
+      induction fs as [|[n x] fs IHfs]; intros fds HC; destruct fds as [|f fds]; try discriminate HC; [reflexivity|].
+      apply andb_prop in HC. destruct HC as [HC Cr]. apply andb_prop in HC. destruct HC as [Hn Cx].
+      inversion IHf as [|? ? Qx Qr]; subst. cbn [snd] in Qx.
+      rewrite Hn, (IHfs Qr fds Cr). cbn [andb]. rewrite andb_true_r.
+      destruct (sfield_nullable f && is_none x); [reflexivity|]. cbn [orb] in *. apply Qx. exact Cx.
+    - (* NamedTuple *)
+      apply andb_prop in HC. destruct HC as [Hc HC]. rewrite Hc. cbn [andb].
+      destruct (sfind E _ c') as [k0|]; [|discriminate HC].
+      refine (nt_all_impl_in _ _ _ _ _ HC). intros f x Hx Hq. apply (Forall_In _ _ IHl x Hx). exact Hq.
+  Qed.
+End ConfMono.
 
 (* ------------------------------------------------------------------ *)
 (* C03: the generated unpacker equals the reference decoder on every input *)
@@ -491,21 +955,244 @@ Section C03.
   Proof.
     induction ts as [|t ts IH]; [reflexivity|].
     cbn [map none_tail none_tail_t]. rewrite IH.
-    destruct t as [ | | | | | | | | | | | | [|t1 ts1] | | t' | ]; reflexivity.
+    destruct t as [ | | | | | | | | | | | | [|t1 ts1] | | t' | | | ]; reflexivity.
   Qed.
 
-  Lemma uk_str_ref t : forall cbn s, uk_str E P (cu cbn t) s = ref_dec_str E P t s.
+  Lemma konst_u_t f : konst_u f = konst_t f.
   Proof.
-    induction t as [ | | | | | | m' | k' | e' | t' IHt | fr' t' IHt | t' IHt | ts IHts | kt IHkt vt IHvt | t' IHt | c' ]
-      using sty_ind'; intros cbn s; cbn [cu uk_str ref_dec_str]; try reflexivity.
-    - rewrite (mapM_ext_in _ (ref_dec_str E P t')); [reflexivity | intros x _; apply IHt].
-    - rewrite (mapM_ext_in _ (ref_dec_str E P t')); [reflexivity | intros x _; apply IHt].
-    - rewrite (mapM_ext_in _ (ref_dec_str E P t')); [reflexivity | intros x _; apply IHt].
-    - f_equal. generalize (utf8_chars s) as l. induction IHts as [|t1 ts H1 Hts IH]; intros l.
-      + reflexivity.
-      + cbn [map]. destruct l as [|x l]; [exact (none_tail_cu (t1 :: ts))|]. rewrite H1. rewrite IH. reflexivity.
-    - destruct cbn; cbn [uk_str]; apply IHt.
+    unfold konst_u, konst_t. destruct (sf_ty f) as [ | | | | | | | | | | | | [|t1 ts1] | | t' | | | ]; reflexivity.
   Qed.
+
+  Lemma uk_str_unfold n u s : uk_str E P n u s =
+    match u with
+    | UId => Ok (VStr s)
+    | UScalar sc => coerce_s P sc (VStr s)
+    | ULeaf k => w <- lift (P.(p_parse) k (VStr s)) ;; Ok (VLeaf k w)
+    | UB64 m => b <- lift (P.(p_b64dec) (VStr s)) ;; Ok (VBytes m b)
+    | UEnum e => mn <- lift (P.(p_enum_of) e (VStr s)) ;; Ok (VEnum e mn)
+    | UOpt u' => uk_str E P n u' s
+    | UListComp u' => r <- mapM (uk_str E P n u') (utf8_chars s) ;; Ok (VList r)
+    | USetComp fr u' => r <- mapM (uk_str E P n u') (utf8_chars s) ;;
+        if forallb hashable r then Ok (VSet fr (set_of_list r)) else Exn XTypeError
+    | UTupleVar u' => r <- mapM (uk_str E P n u') (utf8_chars s) ;; Ok (VTuple r)
+    | UTupleFix us =>
+        r <- (fix go (us: list pdec) (l: list string) {struct us} : res (list pv) :=
+                match us, l with
+                | [], _ => Ok []
+                | _ :: _, [] => none_tail us
+                | u' :: us', x :: l' => y <- uk_str E P n u' x ;; ys <- go us' l' ;; Ok (y :: ys)
+                end) us (utf8_chars s) ;;
+        Ok (VTuple r)
+    | UDictComp _ _ => Exn XAttributeError
+    | UData c => match sfind E KData c with
+                 | Some _ => Exn XValueError
+                 | None => Exn XAttributeError end
+    | UNamed c =>
+        match sfind E KNamed c with
+        | None => Exn XAttributeError
+        | Some k =>
+            match n with
+            | O => Exn XRecursion
+            | S n' =>
+                r <- nt_items (fun f x => uk_str E P n' (cu true f.(sf_ty)) x) konst_u
+                              (nt_exhausted (has_default k.(sc_fields))) k.(sc_fields) (utf8_chars s) ;;
+                Ok (VNT c r)
+            end
+        end
+    | UTyped c =>
+        match sfind E KTyped c with
+        | None => Exn XAttributeError
+        | Some k => td_nondict konst_u k.(sc_fields) end
+    end.
+  Proof. destruct n, u; reflexivity. Qed.
+
+  Lemma ref_dec_str_unfold n t s : ref_dec_str E P n t s =
+    match t with
+    | SAny => Ok (VStr s)
+    | SNoneT => Ok VNone
+    | SIntT => coerce_s P SInt (VStr s)
+    | SFloatT => coerce_s P SFloat (VStr s)
+    | SBoolT => coerce_s P SBool (VStr s)
+    | SStrT => Ok (VStr s)
+    | SBytes m => b <- lift (P.(p_b64dec) (VStr s)) ;; Ok (VBytes m b)
+    | SLeaf k => w <- lift (P.(p_parse) k (VStr s)) ;; Ok (VLeaf k w)
+    | SEnum e => mn <- lift (P.(p_enum_of) e (VStr s)) ;; Ok (VEnum e mn)
+    | SList t' => r <- mapM (ref_dec_str E P n t') (utf8_chars s) ;; Ok (VList r)
+    | SSet fr t' => r <- mapM (ref_dec_str E P n t') (utf8_chars s) ;;
+        if forallb hashable r then Ok (VSet fr (set_of_list r)) else Exn XTypeError
+    | STupleVar t' => r <- mapM (ref_dec_str E P n t') (utf8_chars s) ;; Ok (VTuple r)
+    | STupleFix ts =>
+        r <- (fix go (ts: list sty) (l: list string) {struct ts} : res (list pv) :=
+                match ts, l with
+                | [], _ => Ok []
+                | _ :: _, [] => none_tail_t ts
+                | t' :: ts', x :: l' => y <- ref_dec_str E P n t' x ;; ys <- go ts' l' ;; Ok (y :: ys)
+                end) ts (utf8_chars s) ;;
+        Ok (VTuple r)
+    | SDict _ _ => Exn XAttributeError
+    | SOpt t' => ref_dec_str E P n t' s
+    | SData c => match sfind E KData c with
+                 | Some _ => Exn XValueError
+                 | None => Exn XAttributeError end
+    | SNamed c =>
+        match sfind E KNamed c with
+        | None => Exn XAttributeError
+        | Some k =>
+            match n with
+            | O => Exn XRecursion
+            | S n' =>
+                r <- nt_items (fun f x => ref_dec_str E P n' f.(sf_ty) x) konst_t
+                              (nt_exhausted (has_default k.(sc_fields))) k.(sc_fields) (utf8_chars s) ;;
+                Ok (VNT c r)
+            end
+        end
+    | STyped c =>
+        match sfind E KTyped c with
+        | None => Exn XAttributeError
+        | Some k => td_nondict konst_t k.(sc_fields) end
+    end.
+  Proof. destruct n, t; reflexivity. Qed.
+
+  (* for EVERY amount of fuel (so no acyclicity hypothesis is needed for the equality; with the
+     fuel [List.length E] that [uk] / [ref_dec] supply, exhaustion needs a NamedTuple class that
+     reaches itself through NamedTuple/container positions) *)
+  Lemma uk_str_ref n : forall t cbn s, uk_str E P n (cu cbn t) s = ref_dec_str E P n t s.
+  Proof.
+    induction n as [|n IHn].
+    all: induction t as [ | | | | | | m' | k' | e' | t' IHt | fr' t' IHt | t' IHt | ts IHts | kt IHkt vt IHvt | t' IHt | c' | c' | c' ]
+      using sty_ind'; intros cbn s;
+      try (rewrite (ref_dec_str_unfold _ (SOpt t')); destruct cbn; cbn [cu]; [rewrite uk_str_unfold|]; apply IHt);
+      cbn [cu]; rewrite uk_str_unfold, ref_dec_str_unfold; try reflexivity.
+    all: try (f_equal; apply mapM_ext_in; intros x _; apply IHt).
+    all: try (f_equal; generalize (utf8_chars s) as l; induction IHts as [|t1 ts H1 Hts IH]; intros l;
+              [ reflexivity
+              | cbn [map]; destruct l as [|x l]; [exact (none_tail_cu (t1 :: ts))|]; rewrite H1; rewrite IH; reflexivity ]).
+    all: try (destruct (sfind E _ c') as [k|]; [|reflexivity]; apply td_nondict_ext; exact konst_u_t).
+    - destruct (sfind E _ c') as [k|]; [|reflexivity]. f_equal.
+      apply nt_items_ext; [ intros f x _; apply IHn | exact konst_u_t | reflexivity ].
+  Qed.
+
+  (* ---------------------------------------------------------------- *)
+  (* the fuel of the str descent is enough for a class table whose NamedTuple classes are
+     ranked (= do not reach themselves through NamedTuple / container positions): no
+     RecursionError comes out of [ref_dec_str] / [uk_str] *)
+  Section Fuel.
+    Variable rk : string -> nat.
+
+    (* number of NamedTuple classes a str can descend through, starting at a type *)
+    Fixpoint need (t: sty) : nat :=
+      match t with
+      | SList t' | SSet _ t' | STupleVar t' | SOpt t' => need t'
+      | STupleFix ts => (fix go (l: list sty) : nat := match l with [] => O | t' :: r => Nat.max (need t') (go r) end) ts
+      | SNamed c => S (rk c)
+      | _ => O end.
+
+    Hypothesis ranked : forall c k, sfind E KNamed c = Some k ->
+      forall f, In f k.(sc_fields) -> (need f.(sf_ty) <= rk c)%nat.
+
+    Definition nrec {A} (r: res A) : Prop := r <> Exn XRecursion.
+
+    Lemma nrec_bind {A B} (r: res A) (k: A -> res B) : nrec r -> (forall a, nrec (k a)) -> nrec (bind r k).
+    Proof. destruct r as [a|e]; cbn [bind]; intros H1 H2; [apply H2 | intros H; apply H1; inversion H; reflexivity]. Qed.
+
+    Lemma nrec_exn {A B} e : @nrec A (Exn e) -> @nrec B (Exn e).
+    Proof. intros H Hc. apply H. inversion Hc. reflexivity. Qed.
+
+    Lemma nrec_lift {A} (x: option A) : nrec (lift x).
+    Proof. destruct x; intros H; discriminate H. Qed.
+
+    Lemma nrec_coerce sc v : nrec (coerce_s P sc v).
+    Proof.
+      destruct sc; cbn [coerce_s]; try (intros H; discriminate H);
+        destruct v; try (intros H; discriminate H); (apply nrec_bind; [apply nrec_lift | intros a H; discriminate H]).
+    Qed.
+
+    Lemma nrec_mapM {A B} (f: A -> res B) l : (forall x, In x l -> nrec (f x)) -> nrec (mapM f l).
+    Proof.
+      induction l as [|a l IH]; intros H; [intros Hc; discriminate Hc|].
+      cbn [mapM]. pose proof (H a (or_introl eq_refl)) as Ha.
+      destruct (f a) as [y|e]; [|exact (nrec_exn e Ha)].
+      assert (Hl: nrec (mapM f l)) by (apply IH; intros x Hx; apply H; right; exact Hx).
+      destruct (mapM f l) as [ys|e]; [intros Hc; discriminate Hc | exact Hl].
+    Qed.
+
+    Lemma nrec_none_tail_t ts : nrec (none_tail_t ts).
+    Proof.
+      induction ts as [|t ts IH]; cbn [none_tail_t]; [intros H; discriminate H|].
+      destruct (const_ty t); [|intros H; discriminate H]. apply nrec_bind; [exact IH | intros a H; discriminate H].
+    Qed.
+
+    Lemma nrec_nt_exhausted hd rest : nrec (nt_exhausted hd rest).
+    Proof.
+      unfold nt_exhausted. destruct hd; [|intros H; discriminate H].
+      induction rest as [|f r IH]; cbn [nt_defaults]; [intros H; discriminate H|].
+      destruct (sf_default f); [|intros H; discriminate H]. apply nrec_bind; [exact IH | intros a H; discriminate H].
+    Qed.
+
+    Lemma nrec_nt_tail konst miss fds : (forall rest, nrec (miss rest)) -> nrec (nt_tail konst miss fds).
+    Proof.
+      intros Hm. induction fds as [|f r IH]; cbn [nt_tail]; [intros H; discriminate H|].
+      destruct (konst f); [|apply Hm]. destruct (nt_tail konst miss r); [intros H; discriminate H | exact IH].
+    Qed.
+
+    Lemma nrec_nt_items {X} (run: sfield -> X -> res pv) konst miss fds (l: list X) :
+      (forall f x, In f fds -> nrec (run f x)) -> (forall rest, nrec (miss rest)) -> nrec (nt_items run konst miss fds l).
+    Proof.
+      intros Hr Hm. revert fds Hr. induction l as [|x l IH]; intros fds Hr.
+      - destruct fds; cbn [nt_items]; [intros H; discriminate H | apply nrec_nt_tail; exact Hm].
+      - destruct fds as [|f r]; cbn [nt_items]; [intros H; discriminate H|].
+        pose proof (Hr f x (or_introl eq_refl)) as Hx. destruct (run f x) as [y|e]; [|exact (nrec_exn e Hx)].
+        assert (Hl: nrec (nt_items run konst miss r l)) by (apply IH; intros f0 x0 Hf0; apply Hr; right; exact Hf0).
+        destruct (nt_items run konst miss r l); [intros H; discriminate H | exact Hl].
+    Qed.
+
+    Lemma nrec_td_nondict konst fds : nrec (td_nondict konst fds).
+    Proof.
+      unfold td_nondict. apply nrec_bind; [|intros a; destruct (existsb _ _); intros H; discriminate H].
+      induction (td_order fds) as [|f r IH]; cbn [td_go]; [intros H; discriminate H|].
+      unfold td_field. cbn [look].
+      destruct (sf_opt f); [exact IH|].
+      destruct (konst f); cbn [bind]; [|intros H; discriminate H].
+      apply nrec_bind; [exact IH | intros a H; discriminate H].
+    Qed.
+
+    Lemma need_fix_le ts n : (need (STupleFix ts) <= n)%nat -> Forall (fun t' => (need t' <= n)%nat) ts.
+    Proof.
+      induction ts as [|t ts IH]; intros H; [constructor|].
+      cbn [need] in H. constructor; [lia | apply IH; cbn [need]; lia].
+    Qed.
+
+    Theorem ref_dec_str_no_recursion n : forall t s, (need t <= n)%nat -> nrec (ref_dec_str E P n t s).
+    Proof.
+      induction n as [|n IHn].
+      all: induction t as [ | | | | | | m' | k' | e' | t' IHt | fr' t' IHt | t' IHt | ts IHts | kt IHkt vt IHvt | t' IHt | c' | c' | c' ]
+        using sty_ind'; intros s Hn; rewrite ref_dec_str_unfold;
+        try (intros H; discriminate H); try apply nrec_coerce;
+        try (apply nrec_bind; [apply nrec_lift | intros a H; discriminate H]);
+        try (apply IHt; exact Hn);
+        try (destruct (sfind E _ c'); intros H; discriminate H);
+        try (destruct (sfind E _ c'); [apply nrec_td_nondict | intros H; discriminate H]).
+      all: try (apply nrec_bind; [apply nrec_mapM; intros x _; apply IHt; exact Hn
+                                 | intros a; try destruct (forallb hashable a); intros H; discriminate H]).
+      all: try (apply nrec_bind; [|intros a H; discriminate H];
+                pose proof (need_fix_le ts _ Hn) as Hall; clear Hn; generalize (utf8_chars s) as l;
+                induction IHts as [|t1 ts H1 Hts IH]; intros l;
+                [ intros H; discriminate H
+                | inversion Hall as [|? ? Hn1 Hall']; subst; destruct l as [|x l];
+                  [ apply nrec_none_tail_t
+                  | apply nrec_bind; [apply H1; exact Hn1 | intros y; apply nrec_bind; [apply (IH Hall') | intros ys H; discriminate H]] ] ]).
+      - (* a NamedTuple class with no fuel left: excluded by the bound *)
+        cbn [need] in Hn. lia.
+      - destruct (sfind E _ c') as [k|] eqn:Ef; [|intros H; discriminate H].
+        apply nrec_bind; [|intros a H; discriminate H].
+        apply nrec_nt_items; [|apply nrec_nt_exhausted].
+        intros f x Hf. apply IHn. cbn [need] in Hn. pose proof (ranked c' k Ef f Hf). lia.
+    Qed.
+
+    Corollary uk_str_no_recursion t cbn s : (need t <= List.length E)%nat ->
+      uk_str E P (List.length E) (cu cbn t) s <> Exn XRecursion.
+    Proof. intros Hn. rewrite uk_str_ref. apply (ref_dec_str_no_recursion _ t s Hn). Qed.
+  End Fuel.
 
   Lemma uk_unfold d u : uk E P d u =
       match u with
@@ -519,7 +1206,7 @@ Section C03.
           match d with
           | VList l | VTuple l | VSet _ l => r <- mapM (fun x => uk E P x u') l ;; Ok (VList r)
           | VDict kvs => r <- mapM (fun p => match p with (k, _) => uk E P k u' end) kvs ;; Ok (VList r)
-          | VStr s => uk_str E P u s
+          | VStr s => uk_str E P (List.length E) u s
           | _ => Exn XTypeError end
       | USetComp fr u' =>
           match d with
@@ -528,13 +1215,13 @@ Section C03.
               if forallb hashable r then Ok (VSet fr (set_of_list r)) else Exn XTypeError
           | VDict kvs => r <- mapM (fun p => match p with (k, _) => uk E P k u' end) kvs ;;
               if forallb hashable r then Ok (VSet fr (set_of_list r)) else Exn XTypeError
-          | VStr s => uk_str E P u s
+          | VStr s => uk_str E P (List.length E) u s
           | _ => Exn XTypeError end
       | UTupleVar u' =>
           match d with
           | VList l | VTuple l | VSet _ l => r <- mapM (fun x => uk E P x u') l ;; Ok (VTuple r)
           | VDict kvs => r <- mapM (fun p => match p with (k, _) => uk E P k u' end) kvs ;; Ok (VTuple r)
-          | VStr s => uk_str E P u s
+          | VStr s => uk_str E P (List.length E) u s
           | _ => Exn XTypeError end
       | UTupleFix us =>
           match d with
@@ -546,7 +1233,7 @@ Section C03.
                       | u' :: us', x :: l' => y <- uk E P x u' ;; ys <- go us' l' ;; Ok (y :: ys)
                       end) us l ;;
               Ok (VTuple r)
-          | VStr s => uk_str E P u s
+          | VStr s => uk_str E P (List.length E) u s
           | _ => r <- none_tail us ;; Ok (VTuple r)     (* only constant positions never index the value *)
           end
       | UDictComp ku vu =>
@@ -558,7 +1245,7 @@ Section C03.
               Ok (VDict (dict_of_pairs r))
           | _ => Exn XAttributeError end
       | UData c =>
-          match sfind E c with
+          match sfind E KData c with
           | None => Exn XAttributeError
           | Some k =>
               match d with
@@ -590,6 +1277,33 @@ Section C03.
               | _ => Exn XValueError               (* non-mapping argument *)
               end
           end
+      | UNamed c =>
+          match sfind E KNamed c with
+          | None => Exn XAttributeError
+          | Some k =>
+              match d with
+              | VList l | VTuple l =>
+                  r <- nt_items (fun f x => uk E P x (cu true f.(sf_ty))) konst_u
+                                (nt_exhausted (has_default k.(sc_fields))) k.(sc_fields) l ;;
+                  Ok (VNT c r)
+              | VStr s => uk_str E P (List.length E) u s
+              | _ => r <- nt_tail konst_u (fun _ => Exn XTypeError) k.(sc_fields) ;; Ok (VNT c r)
+              end
+          end
+      | UTyped c =>
+          match sfind E KTyped c with
+          | None => Exn XAttributeError
+          | Some k =>
+              match d with
+              | VDict kvs =>
+                  let entries : list (pv * (pdec -> res pv)) :=
+                      map (fun p => match p with (key, x) => (key, uk E P x) end) kvs in
+                  r <- td_go (fun f dx => dx (cu true f.(sf_ty))) konst_u XKeyError
+                             entries (td_order k.(sc_fields)) ;;
+                  Ok (VDict r)
+              | _ => td_nondict konst_u k.(sc_fields)
+              end
+          end
       end.
   Proof. destruct d, u; reflexivity. Qed.
 
@@ -608,7 +1322,7 @@ Section C03.
           match d with
           | VList l | VTuple l | VSet _ l => r <- mapM (fun x => ref_dec E P x t') l ;; Ok (VList r)
           | VDict kvs => r <- mapM (fun p => match p with (k, _) => ref_dec E P k t' end) kvs ;; Ok (VList r)
-          | VStr s => ref_dec_str E P t s
+          | VStr s => ref_dec_str E P (List.length E) t s
           | _ => Exn XTypeError end
       | SSet fr t' =>
           match d with
@@ -617,13 +1331,13 @@ Section C03.
               if forallb hashable r then Ok (VSet fr (set_of_list r)) else Exn XTypeError
           | VDict kvs => r <- mapM (fun p => match p with (k, _) => ref_dec E P k t' end) kvs ;;
               if forallb hashable r then Ok (VSet fr (set_of_list r)) else Exn XTypeError
-          | VStr s => ref_dec_str E P t s
+          | VStr s => ref_dec_str E P (List.length E) t s
           | _ => Exn XTypeError end
       | STupleVar t' =>
           match d with
           | VList l | VTuple l | VSet _ l => r <- mapM (fun x => ref_dec E P x t') l ;; Ok (VTuple r)
           | VDict kvs => r <- mapM (fun p => match p with (k, _) => ref_dec E P k t' end) kvs ;; Ok (VTuple r)
-          | VStr s => ref_dec_str E P t s
+          | VStr s => ref_dec_str E P (List.length E) t s
           | _ => Exn XTypeError end
       | STupleFix ts =>
           match d with
@@ -635,7 +1349,7 @@ Section C03.
                       | t' :: ts', x :: l' => y <- ref_dec E P x t' ;; ys <- go ts' l' ;; Ok (y :: ys)
                       end) ts l ;;
               Ok (VTuple r)
-          | VStr s => ref_dec_str E P t s
+          | VStr s => ref_dec_str E P (List.length E) t s
           | _ => r <- none_tail_t ts ;; Ok (VTuple r)
           end
       | SDict kt vt =>
@@ -648,7 +1362,7 @@ Section C03.
           | _ => Exn XAttributeError end
       | SOpt t' => if is_none d then Ok VNone else ref_dec E P d t'
       | SData c =>
-          match sfind E c with
+          match sfind E KData c with
           | None => Exn XAttributeError
           | Some k =>
               match d with
@@ -674,8 +1388,35 @@ Section C03.
                               tl <- go rest ;; Ok ((f.(sf_name), y) :: tl)
                           end) k.(sc_fields) ;;
                   Ok (VObj c r)
-              | VStr s => ref_dec_str E P t s
+              | VStr s => ref_dec_str E P (List.length E) t s
               | _ => Exn XValueError
+              end
+          end
+      | SNamed c =>
+          match sfind E KNamed c with
+          | None => Exn XAttributeError
+          | Some k =>
+              match d with
+              | VList l | VTuple l =>
+                  r <- nt_items (fun f x => ref_dec E P x f.(sf_ty)) konst_t
+                                (nt_exhausted (has_default k.(sc_fields))) k.(sc_fields) l ;;
+                  Ok (VNT c r)
+              | VStr s => ref_dec_str E P (List.length E) t s
+              | _ => r <- nt_tail konst_t (fun _ => Exn XTypeError) k.(sc_fields) ;; Ok (VNT c r)
+              end
+          end
+      | STyped c =>
+          match sfind E KTyped c with
+          | None => Exn XAttributeError
+          | Some k =>
+              match d with
+              | VDict kvs =>
+                  let entries : list (pv * (sty -> res pv)) :=
+                      map (fun p => match p with (key, x) => (key, ref_dec E P x) end) kvs in
+                  r <- td_go (fun f dx => dx f.(sf_ty)) konst_t XKeyError
+                             entries (td_order k.(sc_fields)) ;;
+                  Ok (VDict r)
+              | _ => td_nondict konst_t k.(sc_fields)
               end
           end
       end.
@@ -688,7 +1429,7 @@ Section C03.
   Proof.
     induction d as [ | b | z | f | s | m b | l IHl | l IHl | fr l IHl | kvs IHk | c fs IHf | e m | k w | c l IHl | tg ]
       using pv_rect'; unfold uk_ok.
-    all: intros t; induction t as [ | | | | | | m' | k' | e' | t' IHt | fr' t' IHt | t' IHt | ts | kt IHkt vt IHvt | t' IHt | c' ];
+    all: intros t; induction t as [ | | | | | | m' | k' | e' | t' IHt | fr' t' IHt | t' IHt | ts | kt IHkt vt IHvt | t' IHt | c' | c' | c' ];
       intros cbn HG; cbn [cu]; try (rewrite uk_unfold, ref_dec_unfold; reflexivity).
     (* Optional *)
     all: try solve [ destruct cbn;
@@ -698,10 +1439,20 @@ Section C03.
         first [ discriminate Hn | apply IHt; intros _ _; reflexivity ] ] ].
     (* a str input: everything is a function of the decoder *)
     all: try solve [ rewrite uk_unfold, ref_dec_unfold;
-                     first [ exact (uk_str_ref (SList t') true s)
-                           | exact (uk_str_ref (SSet fr' t') true s)
-                           | exact (uk_str_ref (STupleVar t') true s)
-                           | exact (uk_str_ref (STupleFix ts) true s) ] ].
+                     first [ exact (uk_str_ref _ (SList t') true s)
+                           | exact (uk_str_ref _ (SSet fr' t') true s)
+                           | exact (uk_str_ref _ (STupleVar t') true s)
+                           | exact (uk_str_ref _ (STupleFix ts) true s) ] ].
+    (* NamedTuple: sequences item-wise, a str through [uk_str], anything else only constants *)
+    all: try solve [ rewrite uk_unfold, ref_dec_unfold; destruct (sfind E _ c') as [kc|]; [|reflexivity];
+                     first [ exact (uk_str_ref _ (SNamed c') true s)
+                           | f_equal; apply nt_items_ext;
+                             [ intros f x Hx; apply (Forall_In _ _ IHl x Hx); intros Hc; discriminate Hc
+                             | exact konst_u_t | reflexivity ]
+                           | f_equal; apply nt_tail_ext; [ exact konst_u_t | reflexivity ] ] ].
+    (* TypedDict given a non-dict *)
+    all: try solve [ rewrite uk_unfold, ref_dec_unfold; destruct (sfind E _ c') as [kc|]; [|reflexivity];
+                     apply td_nondict_ext; exact konst_u_t ].
     (* fixed tuple given a non-sequence *)
     all: try solve [ rewrite uk_unfold, ref_dec_unfold; rewrite (none_tail_cu ts); reflexivity ].
     (* homogeneous containers over list-like inputs *)
@@ -709,8 +1460,8 @@ Section C03.
                      rewrite (mapM_ext_in _ (fun x => ref_dec E P x t'));
                      [ reflexivity | intros x Hx; apply (Forall_In _ _ IHl x Hx); intros Hc; discriminate Hc ] ].
     - (* VStr, SData *)
-      rewrite uk_unfold, ref_dec_unfold. cbn [ref_dec_str].
-      destruct (sfind E c') as [k|]; reflexivity.
+      rewrite uk_unfold, ref_dec_unfold. rewrite ref_dec_str_unfold.
+      destruct (sfind E _ c') as [k|]; reflexivity.
     - (* VList, STupleFix *)
       rewrite uk_unfold, ref_dec_unfold. f_equal.
       clear HG. revert ts. induction l as [|x l IHl']; intros ts.
@@ -747,7 +1498,7 @@ Section C03.
       rewrite (Qx vt true) by (intros Hc; discriminate Hc). reflexivity.
     - (* VDict, SData: the field loop *)
       rewrite uk_unfold, ref_dec_unfold.
-      destruct (sfind E c') as [k|]; [|reflexivity].
+      destruct (sfind E _ c') as [k|]; [|reflexivity].
       cbv zeta. f_equal. clear HG. induction (sc_fields k) as [|f fds IHfds]; [reflexivity|].
       rewrite IHfds. f_equal.
       (* the entry found for this field is the same on both sides, decoded by related closures *)
@@ -759,6 +1510,15 @@ Section C03.
         apply Qx. intros _ Hnl. unfold sfield_nullable in Hn. rewrite Hnl in Hn. cbn [orb] in Hn.
         rewrite andb_true_r in Hn. exact Hn.
       + apply IHkvs. inversion IHk; assumption.
+    - (* VDict, STyped *)
+      rewrite uk_unfold, ref_dec_unfold.
+      destruct (sfind E _ c') as [k|]; [|reflexivity].
+      cbv zeta. f_equal. apply td_go_ext. intros f _.
+      unfold td_field. rewrite (look_map (uk E P) kvs), (look_map (ref_dec E P) kvs). rewrite konst_u_t.
+      destruct (look kvs (sf_name f)) as [x|] eqn:El; cbn [option_map]; [|reflexivity].
+      destruct (look_In _ _ _ El) as [key [Hin _]].
+      pose proof (Forall_In _ _ IHk (key, x) Hin) as [_ Qx]. cbn [snd] in Qx.
+      rewrite (Qx (sf_ty f) true) by (intros Hc; discriminate Hc). reflexivity.
   Qed.
 
   (* C03 for the codec entry point: BasicDecoder(T).decode(d), every input d *)
